@@ -22,10 +22,13 @@ CONSTANTS
   FlushEntry = TRUE
   UnmapOnDrop = TRUE
   Linear = TRUE
+  AllowNested = FALSE
+  OthersCall = "never"
+  KeepPagesWritable = FALSE
   MaxLives = 1
   MaxInstalls = 2
   MaxCtr = 2
 CONSTRAINT Bound
-INVARIANT TypeOK Restored LatestWins NoWildAtUser OnlyNamed Mutex HolderIsLock NoAbort Reusable IdleClean NoLeak FreeOnce FlushedAtUser NoFault
+INVARIANT TypeOK Restored LatestWins NoWildAtUser OnlyNamed Mutex HolderIsLock NoAbort Reusable IdleClean NoLeak FreeOnce FlushedAtUser NoFault NoSelfDeadlock WX
 PROPERTY FreshCount RefusedUntouched
 CHECK_DEADLOCK FALSE
